@@ -99,6 +99,15 @@ def circuit(draw, tier):
 def tape_case(draw, tier):
     c = draw(circuit(tier))
     c.update(mode="tape", compute_depth=draw(st.sampled_from([True, True, False])), shots=draw(st.sampled_from([None, 100])))
+    # mid-circuit measurements with conditionals on *other* wires: the classical dependency is part of the critical path
+    mcm = []
+    if len(c["wires"]) >= 2 and draw(st.integers(0, 2)) == 0:
+        for _ in range(draw(st.integers(1, 3))):
+            mw, cw = draw(gen.subset(c["wires"], 2))
+            a = draw(st.integers(0, len(c["ops"])))
+            b = draw(st.integers(a, len(c["ops"])))
+            mcm.append({"mwire": mw, "cwire": cw, "at": a, "cond_at": b, "gate": draw(st.sampled_from(["PauliX", "Hadamard", "S"]))})
+    c["mcm"] = mcm
     return c
 
 
@@ -152,14 +161,21 @@ def strategy(tier):
 # ---------------------------------------------------------------------------------------------
 
 def asap_depth(ops):
-    """Longest path (in operations) of the wire-dependency DAG, by as-soon-as-possible layering."""
+    """Longest path (in operations) of the dependency DAG, by as-soon-as-possible layering: an operation depends on
+    the previous operation on each of its wires and, for a classically controlled operation, on the mid-circuit
+    measurement(s) whose outcome it reads."""
     level = {}
+    mlevel = {}
     best = 0
     for op in ops:
         ws = list(op.wires)
         if not ws:
             raise Reject("operator without wires")
         d = 1 + max(level.get(w, 0) for w in ws)
+        if type(op).__name__ == "Conditional":
+            d = max(d, 1 + max([mlevel.get(id(m), 0) for m in op.meas_val.measurements] or [0]))
+        if type(op).__name__ == "MidMeasure":
+            mlevel[id(op)] = d
         for w in ws:
             level[w] = d
         best = max(best, d)
@@ -237,6 +253,20 @@ def compare(res, tape, compute_depth, what):
 
 def check_tape(qp, spec):
     tape = specs.build_tape({"ops": spec["ops"], "meas": spec["meas"], "shots": spec["shots"]})
+    if spec.get("mcm"):
+        ops = list(tape.operations)
+        inserts = []
+        for k, mc in enumerate(spec["mcm"]):
+            with qp.queuing.AnnotatedQueue() as q:
+                m = qp.measure(specs.wire(mc["mwire"]))
+                qp.cond(m, getattr(qp, mc["gate"]))(specs.wire(mc["cwire"]))
+            mid, cond = [o for o in q.queue]
+            inserts.append((min(mc["at"], len(ops)), 0, k, mid))
+            inserts.append((min(mc["cond_at"], len(ops)), 1, k, cond))
+        for pos, _, _, o in sorted(inserts, key=lambda t: (t[0], t[1], t[2]), reverse=True):
+            ops.insert(pos, o)
+        # the measurement must precede its conditional: stable order by (position, kind) guarantees it for equal positions
+        tape = qp.tape.QuantumScript(ops, tape.measurements, shots=tape.shots)
     res = qp.resource.resources_from_tape(tape, compute_depth=spec["compute_depth"])
     ntypes, depth, nops = compare(res, tape, spec["compute_depth"], "resources_from_tape")
     sp = tape.specs
